@@ -15,8 +15,8 @@ EXPLANATION = ("Bounded symbolic execution (CrossHair/z3) of the real SwitchCont
                "handlers (hold time symbolic real) separated by symbolic real gaps; a reference model computed from the "
                "timeline says which handlers must have fired when; events and untimed handlers are counted.")
 NONTRIVIAL_RULE = "at least one actual state change happened and the timed handler's state was entered at least once"
-BOUNDS = {"quick": {"timeline_len": 4, "timed_handlers": "1-2", "hold_ms": "[1,3000] real", "gap_s": "[0,2] real"},
-          "thorough": {"timeline_len": 5, "timed_handlers": "1-2", "hold_ms": "[1,3000] real", "gap_s": "[0,2] real"}}
+BOUNDS = {"quick": {"timeline_len": 4, "timed_handlers": "1-3", "hold_ms": "[1,3000] real", "gap_s": "[0,2] real"},
+          "thorough": {"timeline_len": 5, "timed_handlers": "1-3", "hold_ms": "[1,3000] real", "gap_s": "[0,2] real"}}
 ASSUMPTIONS = ["an instant that coincides exactly with a hold deadline (a change, a registration, a removal) is assumed away: the statement does not order them",
                "mute/unmute, monitors and platform-number lookup are not exercised",
                "ignore_window_ms scenario: only the statement-level claim 'first change posts once, duplicates nothing' is checked"]
@@ -38,7 +38,7 @@ def body(S, t, part):
     seq = part["seq"]
     S.now_symbolic(t.loop)
     t0 = t.loop.time()
-    fired = {"A": [], "B": []}
+    fired = {"A": [], "B": [], "C": []}
     untimed = {0: 0, 1: 0}
     evs = {0: 0, 1: 0}
     short = part["switch"][2:]
@@ -46,9 +46,13 @@ def body(S, t, part):
     m.events.add_handler("ev_%s_inactive" % short, lambda **kwargs: evs.__setitem__(0, evs[0] + 1))
     sw.add_handler(lambda: untimed.__setitem__(1, untimed[1] + 1), state=1)
     sw.add_handler(lambda: untimed.__setitem__(0, untimed[0] + 1), state=0)
-    cbs = {"A": (lambda: fired["A"].append(t.loop.time())), "B": (lambda: fired["B"].append(t.loop.time()))}
-    hstate = {k: (1 if S.bool("hstate_" + k) else 0) for k in ("A", "B") if k in seq}
-    hold = {k: S.real("hold_ms_" + k, 1, 3000) for k in ("A", "B") if k in seq}
+    cbs = {"A": (lambda: fired["A"].append(t.loop.time())), "B": (lambda: fired["B"].append(t.loop.time())),
+           "C": (lambda: fired["C"].append(t.loop.time()))}
+    hstate = {k: (1 if S.bool("hstate_" + k) else 0) for k in ("A", "B", "C") if k in seq}
+    if part.get("same_state"):
+        for k in hstate:
+            hstate[k] = 1
+    hold = {k: S.real("hold_ms_" + k, 1, 3000) for k in ("A", "B", "C") if k in seq}
     reg_at, rem_at = {}, {}
     # reference timeline: list of (time, new logical state) of ACTUAL changes; initial state 0 since "for ever"
     changes = []
@@ -76,7 +80,7 @@ def body(S, t, part):
                                 "after report %d (bit=%s logical=%s invert=%s) state=%s expected %s" % (i, bit, logical, invert, sw.state, state))
             if changes and sw.hw_state != (state ^ invert):
                 raise Violation("hw-state-mirrors-last-report", "process_switch_obj", "hw_state %s" % sw.hw_state)
-        elif a in "AB":
+        elif a in "ABC":
             sw.add_handler(cbs[a], state=hstate[a], ms=hold[a])
             reg_at[a] = now
         elif a in "DE":
@@ -155,9 +159,11 @@ def scenarios(tier):
     parts = [dict(switch=sw, seq=s) for sw in ("s_no", "s_nc") for s in seqs]
     if tier == "quick":
         parts = [p for p in parts if p["switch"] == "s_no" or p["seq"] in ("RARR", "RRAD", "ARDR", "ABRR")]
+        parts.append(dict(switch="s_no", seq="ABCR", same_state=True))
         parts.append(dict(switch="s_nc", seq="RRR", sym_logical=True))
         parts.append(dict(switch="s_no", seq="RRR", sym_logical=True))
     else:
+        parts += [dict(switch=sw, seq=q, same_state=True) for sw in ("s_no", "s_nc") for q in ("ABCRR", "ABRCR", "RABCR")]
         parts += [dict(switch=sw, seq=q, sym_logical=True) for sw in ("s_no", "s_nc") for q in ("RRRR", "RARR", "ARRD")]
     return [Scenario("timeline", setup, body, parts, teardown=teardown, part_budget=90 if tier == "quick" else 300,
                      per_path_timeout=30)]
